@@ -12,6 +12,7 @@ class G:
         self.scopes = [[]]
         self.loopvars = set()
         self.in_try = False       # inside a try body: defeat calls allowed, try not
+        self.funcs = []           # (name, nparams, returns_int) callable from the code being generated
         self.in_handler = False   # inside an undo handler: plain statements only
 
     def vars(self):
@@ -95,6 +96,17 @@ class G:
             rhs = self.e(self.r.randint(0, 2))
             if op in ('/=', '%=') and self.r.random() > self.faults: rhs = self.r.choice(['1', '2', '3', '7', '(-3)'])
             return ['%s%s %s %s;' % (ind, self.r.choice(vs), op, rhs)]
+        if self.funcs and self.r.random() < 0.22:
+            name, npar, retint = self.r.choice(self.funcs)
+            args = ', '.join(self.e(self.r.randint(0, 2)) for _ in range(npar))
+            k = self.r.random()
+            if retint and k < 0.4:
+                x = self.fresh()
+                self.scopes[-1].append(x)
+                return ['%sint %s = %s(%s);' % (ind, x, name, args)]
+            if retint and k < 0.7 and vs:
+                return ['%s%s = %s(%s);' % (ind, self.r.choice(vs), name, args)]
+            return ['%s%s(%s);' % (ind, name, args)]
         if r < 0.6:
             k = self.r.random()
             ex = self.e(self.r.randint(0, 4))
@@ -143,10 +155,43 @@ class G:
         if r < 0.95:
             return ['%s{' % ind] + self.block(d - 1, ind=ind + '    ') + ['%s}' % ind]
         if self.r.random() < 0.5:
-            return ['%sif (%s) {' % (ind, self.cmp(1)), '%s    return;' % ind, '%s}' % ind]
+            return ['%sif (%s) {' % (ind, self.cmp(1)), '%s    return%s;' % (ind, (' ' + self.e(1)) if getattr(self, 'ret_int', False) else ''), '%s}' % ind]
         return ['%swrite(\'!\');' % ind]
 
+    def function(self, idx):
+        npar = self.r.choice([0, 1, 1, 2, 3])
+        retint = self.r.random() < 0.6
+        name = 'fn%d' % idx
+        params = ['%s_a%d' % (name, i) for i in range(npar)]
+        saved = (self.scopes, self.loopvars, self.in_try, self.in_handler)
+        self.ret_int = retint
+        self.scopes, self.loopvars, self.in_try, self.in_handler = [list(params)], set(), False, True   # plain statements only
+        body = self.block(2, n=self.r.randint(1, 5))
+        if retint:
+            body.append('    return %s;' % self.e(self.r.randint(0, 3)))
+        self.scopes, self.loopvars, self.in_try, self.in_handler = saved
+        self.ret_int = False
+        text = '%s %s(%s) {\n' % ('int' if retint else 'empty', name, ', '.join('int ' + q for q in params)) + '\n'.join(body) + '\n}\n'
+        return (name, npar, retint), text
+
+    def recursive(self):
+        # a self-recursive function with a decreasing argument
+        return ('rec', 2, True), ('int rec(int n, int acc) {\n    if (n < 1) {\n        return acc;\n    }\n'
+                                  '    int r = rec(n - 1, acc + n * %d);\n    return r %s %d;\n}\n'
+                                  % (self.r.randint(1, 9), self.r.choice(['+', '-', '*']), self.r.randint(1, 5)))
+
     def program(self):
+        texts = []
+        if self.r.random() < 0.55:
+            for i in range(self.r.randint(1, 3)):
+                sig, text = self.function(i)
+                texts.append(text)
+                self.funcs.append(sig)
+            if self.r.random() < 0.4:
+                sig, text = self.recursive()
+                texts.append(text)
+                self.funcs.append(sig)
+        self.prelude = ''.join(texts)
         # int parameters of the entry point: values come from the command line
         nparams = self.r.choice([0, 0, 1, 2, 3])
         params = ['p%d' % i for i in range(nparams)]
@@ -154,7 +199,7 @@ class G:
         self.args = [str(self.r.choice([0, 1, 2, 3, 7, -1, -2, 100, 255, 256, 32767, -32768, 65535, 65536, 2147483647,
                                         -2147483648, self.r.randrange(-1000, 1000)])) for _ in params]
         body = self.block(3, n=self.r.randint(2, 8))
-        return 'empty @is_you(%s) {\n' % ', '.join('int ' + q for q in params) + '\n'.join(body) + '\n}\n'
+        return self.prelude + 'empty @is_you(%s) {\n' % ', '.join('int ' + q for q in params) + '\n'.join(body) + '\n}\n'
 
 
 def gen(seed, faults=0.05):
